@@ -42,7 +42,7 @@ def obligations(tier):
     obs.append(Ob("C06.opts", "X", "the records_per_chunk given to open_alos2 reaches every image of the product unchanged (default 1024 when absent), on every call: the caller's "
                   "backend_options dict still holds it afterwards, so a reused options object keeps its meaning",
                   ["ceos_alos2.xarray:open_alos2", "ceos_alos2.io:open"], bounds="forall rpc (int), use_cache, create_cache, option keys present/absent; 1..3 images",
-                  harness="harness/h_tree.py", func="opts_ok", timeout=to))
+                  harness="harness/h_tree.py", func="opts_ok", timeout=300 if q else 900))
     obs.append(Ob("C06.e2e", "E", "witness replay: the same product opened with pairs of records_per_chunk (1, divisors and non-divisors, line count + 1, 10^6): identical trees; "
                   "preferred chunk size = min(rpc, lines)", ["ceos_alos2.xarray:open_alos2", "ceos_alos2.xarray:extract_encoding"], bounds="concrete replays (not the deciding step)",
                   call="props.e2e:ob_rpc", wall_timeout=900))
